@@ -49,6 +49,10 @@ func loginFor(cls, user string) *envx.Login {
 		l.Audience = "some-other-client"
 	case "expired":
 		l.ExpiredID = true
+	case "expired-just":
+		// expired a few seconds ago - later than the moment the gateway process was started
+		l.ExpiredID = true
+		l.ExpiredBy = 3 * time.Second
 	case "nousername":
 		l.Claims = map[string]interface{}{"email": "x@example.org"}
 	}
@@ -109,6 +113,12 @@ func (i *Inst) RunOidc(s *OiScript, tw *TraceWriter, rng *rand.Rand) error {
 	}
 	switch s.Kind {
 	case "callback":
+		if s.Login == "expired-just" {
+			// the gateway has to be older than the token's expiry
+			if age := time.Since(i.Started); age < 6*time.Second {
+				time.Sleep(6*time.Second - age)
+			}
+		}
 		b := i.NewBrowser("", "")
 		authURL, state, _, err := startLogin(b, "")
 		if err != nil || authURL == "" {
